@@ -871,8 +871,9 @@ Definition tag_eqb (a b : tag) : bool :=
 (** Descriptors sqlgen registers (ValidateSQLType accepts) and the model covers. *)
 Definition desc_ok (d : desc) : bool :=
   (match d_base d, d_tag d with
-   | BCustom CValuer, TNone | BCustom CBin, TBinary | BCustom CText, TString
-   | BCustom CNull, TNone | BCustom CUuid, TNone | BCustom CTri, TNone => true
+   | BCustom CBin, TBinary | BCustom CText, TString => true
+   | BCustom (CValuer | CNull | CUuid | CTri), _ => true   (* a type that is its own driver.Valuer / sql.Scanner: both
+                                                             interfaces come before the tags, any tag may sit on it *)
    | BCustom _, _ => false
    | BBytes, (TNone | TBinary | TImplicitNull) => true
    | BBytes, _ => false
